@@ -30,6 +30,7 @@ class RaiseEx(Exception):
 
 
 SOLVER_TIMEOUT_MS = 10000
+FEAS_TIMEOUT_MS = 3000
 
 
 class Obligation:
